@@ -201,10 +201,10 @@ def build_cpp(name, flags="-O1", hooks=True, sanitize=False):
     out_dir = os.path.join(BUILD, "cpp")
     os.makedirs(out_dir, exist_ok=True)
     src = os.path.join(VERIF, "cpp", name + ".cpp")
-    allflags = "-std=c++17 -fno-access-control %s %s %s" % (flags, "-D" + GUARD if hooks else "", "-g -fsanitize=address,undefined -fno-sanitize-recover=all" if sanitize else "")
+    allflags = "-std=c++17 -fno-access-control %s %s %s" % (flags, "-D" + GUARD if hooks else "", ("-g -fsanitize=thread" if sanitize == "thread" else "-g -fsanitize=address,undefined -fno-sanitize-recover=all") if sanitize else "")
     h = file_hash(repo_sources() + [src] + glob.glob(os.path.join(VERIF, "cpp", "*.hpp")), allflags)
     exe = os.path.join(out_dir, "%s-%s" % (name, h))
-    with Lock("cpp-" + name + ("-san" if sanitize else "")):
+    with Lock("cpp-" + name + ("-tsan" if sanitize == "thread" else "-san" if sanitize else "")):
         if os.path.exists(exe):
             return exe, None
         for old in glob.glob(os.path.join(out_dir, name + "-*")):
@@ -216,7 +216,7 @@ def build_cpp(name, flags="-O1", hooks=True, sanitize=False):
             return None, out[-4000:]
         # garbage-collect old binaries of the same driver (keep the 3 newest)
         olds = sorted(glob.glob(os.path.join(out_dir, name + "-*")), key=os.path.getmtime)
-        for o in olds[:-3]:
+        for o in olds[:-4]:
             try:
                 os.remove(o)
             except OSError:
